@@ -4,8 +4,9 @@ import ScVerif.C07.EventsLemmas
 
 `Bus.Send` hands ONE `*CollectionChange` to every subscriber; an unmasked backpressure subscriber's
 consumer receives that very pointer.  The theorems are about the model of Events.lean (writers'
-sends and the pipeline steps of any number of subscribers — backpressure or lossy, masked or not —
-interleaved in ANY order), for every read-mask projection `proj`:
+sends and the pipeline steps of any number of subscribers of a Collection or a Value — backpressure or
+lossy, masked or not, with or without an include filter (whatever it decides: pass, drop, replace by an
+ADD / a REMOVE) — interleaved in ANY order), for every read-mask projection `proj`:
 
 * no step ever writes to an allocated event cell: whatever a consumer received, and whatever the bus
   handed out, keeps its contents for ever, whoever else holds the same pointer and however far a
@@ -97,6 +98,14 @@ example :
       .send ⟨.update, 1, some 11, some 12, false⟩, .forward 0, .mergeIn 1, .emit 1]
     s.subs.map (·.out) = [[0, 1], [2]] ∧ s.heap 0 = ⟨.update, 1, some 10, some 11, false⟩ ∧
       s.heap 2 = ⟨.update, 1, some 10, some 12, false⟩ := by decide
+
+/-- an include filter replaces the shared UPDATE by a NEW ADD for its own subscriber; the other subscriber's object
+(the bus cell 0) still says UPDATE -/
+example :
+    let s := run id ES.init [.sub false false, .sub false false,
+      .send ⟨.update, 1, some 11, some 12, false⟩, .forward 0, .forwardIncl 1 .toAdd]
+    s.subs.map (·.out) = [[0], [1]] ∧ s.heap 0 = ⟨.update, 1, some 11, some 12, false⟩ ∧
+      s.heap 1 = ⟨.add, 1, none, some 12, false⟩ := by decide
 
 /-- a Value: `DropExcess` drops the older pending pointer; the lossy consumer then receives the bus's own cell (cell 1),
 the very cell the backpressure consumer received, and nothing was written -/
